@@ -183,7 +183,7 @@ def check(report, tier, seed):
                 report.violation("cli-hang", "no termination within 60 s: %r" % args, {"args": args})
                 continue
             out, err = r.stdout.decode("utf-8", "replace"), r.stderr.decode("utf-8", "replace")
-            observed[i] = (r.returncode, r.stdout)
+            observed[i] = (r.returncode, r.stdout, r.stderr)
             final = any(m in out for m in ("halted in state", "timed out after", "error caused in state"))
             got = ("usage" if "Usage:" in out else "version" if "HCLRS version" in out else "syntaxok" if "syntax OK" in out
                    else "final" if final else "message" if err.strip() else "nothing")
@@ -239,8 +239,8 @@ def check(report, tier, seed):
                 pass
         entries = " ".join("%s:%s" % (lib.hexs(pth), content.encode().hex() or "") for pth, content in table.items())
         tool_lines, chosen = [], []
-        want_n = 60 if tier == "quick" else 1500
-        quota = {True: want_n - want_n // 3, False: want_n // 3}          # two thirds successful invocations, one third failing ones
+        want_n = 70 if tier == "quick" else 1500
+        quota = {True: want_n // 2, False: want_n - want_n // 2}          # half successful invocations, half failing ones (their messages)
         for i, (args, inv, hk, lossy) in enumerate(cases):
             if i not in observed or quota[observed[i][0] == 0] <= 0:
                 continue
@@ -258,9 +258,9 @@ def check(report, tier, seed):
         for i in chosen:
             args, inv, hk, lossy = cases[i]
             blk = tool.get("m%d" % i, ["MISSING"])
-            code, out = observed[i]
+            code, out, errtext = observed[i]
             rep = {"args": [a.replace(d, "<tmp>") for a in args], "exit": code, "stdout": out.decode("utf-8", "replace")[-600:], "model": [l[:200] for l in blk]}
-            if len(blk) != 2 or not blk[0].startswith("exit ") or not blk[1].startswith("stdout"):
+            if len(blk) != 3 or not blk[0].startswith("exit ") or not blk[1].startswith("stdout") or not blk[2].startswith("stderr"):
                 report.broken.append({"what": "the composed model tool gave no answer", "detail": rep})
                 break
             try:
@@ -279,11 +279,31 @@ def check(report, tier, seed):
             a_, b_ = (sorted(out.split(b"\n")), sorted(mout.split(b"\n"))) if unordered else (out, mout)
             if a_ != b_:
                 report.violation("tool-stdout-differs", "standard output differs from the composed model's for %r" % rep["args"], rep)
+                continue
+            # standard error (ToolErr.tool_stderr): byte for byte, except the operating system's text after
+            # "Error reading '..': " / "error: " for files that cannot be opened, and the hash-ordered parts of diagnostics
+            if blk[2] == "stderr none":
+                res["tool_stderr:none"] += 1
+                continue
+            merr = bytes.fromhex(blk[2][7:].replace("-", ""))
+            rep["stderr"] = errtext.decode("utf-8", "replace")[-800:]
+            rep["model_stderr"] = merr.decode("utf-8", "replace")[-800:]
+            ph = b"<text of the I/O error>"
+            if ph in merr:
+                pre = merr[:merr.index(ph)]
+                ok = errtext.startswith(pre)
+            else:
+                import frontcheck
+                ok = errtext == merr or sorted(frontcheck._canon_block(b) for b in frontcheck._blocks(errtext.decode("utf-8", "replace").rstrip("\n"))) == \
+                    sorted(frontcheck._canon_block(b) for b in frontcheck._blocks(merr.decode("utf-8", "replace").rstrip("\n")))
+            res["tool_stderr:%s" % ("same" if ok else "differs")] += 1
+            if not ok:
+                report.violation("tool-stderr-differs", "standard error differs from the composed model's for %r" % rep["args"], rep)
     report.coverage["evaluations"] = len(cases)
     report.coverage["distinct_nontrivial"] = len(set(tuple(a) for a, _, _, _ in cases))
     report.coverage["rule"] = ("argument vectors: random subsets of the ten options in short, long and combined (-dq) spellings, unknown, doubled, abbreviated and valued ones, a lone -, the empty string, one-letter long names, arguments that are not valid UTF-8, the -- terminator, around 0-4 positionals; standard input empty, lines of text, lines that are not UTF-8 (read only by the -i prompt); HCL file valid (halting, running "
                                "forever, error status, aborting with division by zero), rejected or missing; image valid, missing, wrong extension, unloadable, "
                                "not UTF-8; timeouts absent 0 1 3 9999 2^32-1 2^32 -1 abc '' +5 007 '1 ' 10^20; the real binary's exit status and outcome class "
-                               "(usage / version / syntax OK / final state / message) against Cli.main_model, and the printed cycle counts against the timeout; on a sample, exit status and standard output byte for byte against the whole command composed in the model (Tool.tool_main_as) given the same files")
+                               "(usage / version / syntax OK / final state / message) against Cli.main_model, and the printed cycle counts against the timeout; on a sample, exit status, standard output and standard error byte for byte (operating-system error texts and hash-ordered parts excepted) against the whole command composed in the model (Tool.tool_main_as) given the same files")
     report.coverage["distribution"] = dict(res)
     report.coverage["samples"] = [[a.replace(lib.CACHE, "<cache>") for a in cases[0][0]]]
